@@ -4,7 +4,10 @@
 
   Model: Hy.Model.Frag —
     UDPMessage.HeaderSize/Size/Serialize and ParseUDPMessage (core/internal/protocol/proxy.go),
-    FragUDPMessage and Defragger.Feed (core/internal/frag/frag.go).
+    FragUDPMessage and Defragger.Feed (core/internal/frag/frag.go);
+  Hy.Model.AutoFrag — the two send paths sendMessageAutoFrag (core/server/udp.go) and udpConn.Send
+    (core/client/udp.go) with udpIOImpl.SendMessage (Serialize into the MaxUDPSize buffer, -1 =
+    silent drop, SendDatagram); logger verdicts, transport answers and the random draw are inputs.
   `fragUDP` is FragUDPMessage WITH fixes/D1.patch (fragment count computed as `int`, a message
   that needs more than 255 fragments is discarded); `fragUDPPinned` is the pinned tree, kept
   for the witnesses at the end of the file.  Header fields are `Fin`s of their Go width, so
@@ -12,6 +15,8 @@
   The datagram limit is an `Int` (Go `int`): zero and negative limits are included.
 -/
 import Hy.Proofs.Frag
+import Hy.Proofs.AutoFrag
+import Hy.Gen.C05Shape
 set_option linter.unusedSimpArgs false
 namespace Hy.Props.C05
 open Hy Hy.Frag Hy.Res
@@ -334,6 +339,278 @@ example :
   rcases hp with rfl | rfl
   · exact (frag_reassembles _ 12 _ (by decide) (by decide)).1
   · exact (frag_reassembles _ 12 _ (by decide) (by decide)).1
+
+/-! ### the send paths: sendMessageAutoFrag (server) and udpConn.Send (client) -/
+
+/-- both paths serialize into a buffer of MaxUDPSize bytes -/
+theorem const_udpbuf : Gen.MaxUDPSize = 4096 := by decide
+
+/-- what sits between the send paths and quic.Conn.SendDatagram — the two udpIOImpl.SendMessage
+    bodies, which the harness cannot drive (a real *quic.Conn) and therefore re-implements — is
+    still the code `ioSend` models: [logger verdict →] Serialize, -1 = silent drop, SendDatagram -/
+theorem shape_client_sendmessage : Gen.C05Shape.clientSendMessage =
+    "msgN := msg.Serialize(buf) if msgN < 0 { return nil } return io.Conn.SendDatagram(buf[:msgN])" := rfl
+theorem shape_server_sendmessage : Gen.C05Shape.serverSendMessage =
+    "if io.TrafficLogger != nil { ok := io.TrafficLogger.LogTraffic(io.AuthID, 0, uint64(len(msg.Data))) if !ok { _ = io.Conn.CloseWithError(closeErrCodeTrafficLimitReached, \"\") return errDisconnect } } msgN := msg.Serialize(buf) if msgN < 0 { return nil } return io.Conn.SendDatagram(buf[:msgN])" := rfl
+
+/-- the packet id of a fragmented message is never 0 (the id of unfragmented messages and of a
+    fresh Defragger), for every value `rand.Intn(0xFFFF)` can return -/
+theorem packet_id_nonzero_range (draw : Nat) (h : draw < 65535) :
+    1 ≤ (pktIDOfDraw draw).val ∧ (pktIDOfDraw draw).val ≤ 65535 ∧ pktIDOfDraw draw ≠ 0 := by
+  have := pktIDOfDraw_val draw h
+  refine ⟨by omega, by omega, ?_⟩
+  intro e; rw [e] at this; simp at this
+
+/-- all of 1..65535 can be drawn; the bound 0xFFFF matters: 65535 would wrap to 0 -/
+example : pktIDOfDraw 0 = 1 ∧ pktIDOfDraw 65534 = 65535 ∧ pktIDOfDraw 65535 = 0 := by decide
+
+/-- the send paths never panic, for every message, draw and behaviour of logger and transport -/
+theorem autofrag_total (logger : Bool) (bufLen : Nat) (m : UDPMessage) (draw : Nat) (env : Nat → Env1) :
+    NoPanic (autoFrag logger bufLen m draw env) := by
+  rw [autoFrag_spec]
+  split
+  · simp
+  · split
+    · simp
+    · split
+      · simp
+      · simp
+      · rw [fragUDP_spec]; simp
+
+/-- ALL-OR-NOTHING AND SIZED, on the wire.  Whatever logger and transport do: nothing is handed to
+    SendDatagram, or the first datagram is the whole message and — only if the transport answered
+    it with DatagramTooLargeError(L) — it is followed by the serializations of a PREFIX of the
+    fragments `fs` the splitter produced for limit L with the drawn packet id; every one of those
+    is at most L bytes; `fs` is the message whole (it fits L after all), or a fragment set: one
+    common non-zero packet id, FragCount = their number ≤ 255, FragIDs 0..n-1.  `k` fragments were
+    handed over and the first `j` of them left (`j ≤ k ≤ j+1`: at most the one datagram whose
+    SendDatagram failed was handed over beyond what left, nothing after it); every fragment left
+    (`j = |fs|`) exactly when no error is returned. -/
+theorem autofrag_all_or_nothing_sized (logger : Bool) (bufLen : Nat) (m : UDPMessage) (draw : Nat)
+    (hdraw : draw < 65535) (env : Nat → Env1) (hs : List Handed) (err : Option SendErr)
+    (h : autoFrag logger bufLen m draw env = .ok (hs, err)) :
+    hs = [] ∨ ∃ rest, hs = ⟨serialize m, (env 0).resp⟩ :: rest ∧
+      (rest = [] ∨ ∃ L fs j k, (env 0).resp = .tooLarge L ∧
+        fragUDP { m with packetID := pktIDOfDraw draw } L = .ok fs ∧
+        j ≤ k ∧ k ≤ j + 1 ∧ k ≤ fs.length ∧
+        rest.map (·.bytes) = (fs.take k).map serialize ∧
+        delivered hs = (fs.take j).map serialize ∧
+        (err = none ↔ j = fs.length) ∧
+        (∀ x ∈ rest, (x.bytes.length : Int) ≤ L) ∧
+        (fs = [] ∨ fs = [{ m with packetID := pktIDOfDraw draw }] ∨ IsFragSet { m with packetID := pktIDOfDraw draw } fs) ∧
+        (∀ f ∈ fs, f.packetID = pktIDOfDraw draw ∧ f.packetID ≠ 0)) := by
+  rw [autoFrag_spec] at h
+  split at h
+  · simp only [ok.injEq, Prod.mk.injEq] at h; exact Or.inl h.1.symm
+  · split at h
+    · simp only [ok.injEq, Prod.mk.injEq] at h; exact Or.inl h.1.symm
+    · rename_i hlog hbuf
+      right
+      split at h
+      · rename_i hr
+        simp only [ok.injEq, Prod.mk.injEq] at h
+        exact ⟨[], by rw [← h.1, hr], Or.inl rfl⟩
+      · rename_i hr
+        simp only [ok.injEq, Prod.mk.injEq] at h
+        exact ⟨[], by rw [← h.1, hr], Or.inl rfl⟩
+      · rename_i L hr
+        obtain ⟨fs, hfs, h⟩ := bind_eq_ok h
+        simp only [ok.injEq, Prod.mk.injEq] at h
+        obtain ⟨h1, h2⟩ := h
+        have hsz : size ({ m with packetID := pktIDOfDraw draw } : UDPMessage) = size m := rfl
+        have hfit : ∀ f ∈ fs, size f ≤ bufLen := fun f hf => by
+          have := frag_size_le _ L fs hfs f hf; rw [hsz] at this; omega
+        obtain ⟨j, k, hjk, hkj, hk, s1, s2, s3⟩ := sendFrags_spec logger bufLen env fs hfit 1
+        refine ⟨(sendFrags logger bufLen env 1 fs).1, by rw [← h1, hr], Or.inr ⟨L, fs, j, k, hr, hfs, hjk, hkj, hk, s1, ?_, ?_, ?_, ?_, ?_⟩⟩
+        · rw [← h1]
+          have : delivered (⟨serialize m, .tooLarge L⟩ :: (sendFrags logger bufLen env 1 fs).1)
+              = delivered (sendFrags logger bufLen env 1 fs).1 := by simp [delivered]
+          rw [this, s2]
+        · rw [← h2]; exact s3
+        · intro x hx
+          obtain ⟨f, hf, e⟩ := sendFrags_mem logger bufLen env fs hfit 1 x hx
+          rw [e, serialize_length]
+          exact frag_fits _ L fs hfs f hf
+        · rcases frag_outcome _ L fs hfs with rfl | ⟨rfl, _⟩ | ⟨hS, _, _⟩
+          · exact Or.inl rfl
+          · exact Or.inr (Or.inl rfl)
+          · exact Or.inr (Or.inr hS)
+        · intro f hf
+          have hp : f.packetID = pktIDOfDraw draw := by
+            rcases frag_outcome _ L fs hfs with rfl | ⟨rfl, _⟩ | ⟨hS, _, _⟩
+            · simp at hf
+            · simp only [List.mem_singleton] at hf; rw [hf]
+            · exact hS.pid f hf
+          exact ⟨hp, by rw [hp]; exact (packet_id_nonzero_range draw hdraw).2.2⟩
+
+/-- a message larger than the 4096-byte buffer is not sent at all: nothing reaches SendDatagram,
+    not even a part, and no error is reported (unless the server's traffic logger refuses) -/
+theorem oversize_dropped_silently (logger : Bool) (bufLen : Nat) (m : UDPMessage) (draw : Nat) (env : Nat → Env1)
+    (h : bufLen < size m) :
+    autoFrag logger bufLen m draw env =
+      .ok ([], if logger ∧ (env 0).logOk = false then some .disconnect else none) := by
+  rw [autoFrag_spec]
+  split
+  · rfl
+  · first | rfl | rw [if_pos h]
+
+/-- a message that the transport refuses as too large and that would need more than 255
+    fragments (or whose limit leaves no room for payload) is not sent at all either: after the
+    refused whole attempt no fragment is handed over, nothing leaves, no error is reported -/
+theorem overcount_dropped_silently (logger : Bool) (bufLen : Nat) (m : UDPMessage) (draw : Nat) (env : Nat → Env1)
+    (L : Int) (hbuf : size m ≤ bufLen) (hlog : logger = true → (env 0).logOk = true) (hr : (env 0).resp = .tooLarge L)
+    (hfit : ¬ (size m : Int) ≤ L)
+    (h : L ≤ (headerSize m : Int) ∨ 255 < fragCountOf m (L - (headerSize m : Int)).toNat) :
+    autoFrag logger bufLen m draw env = .ok ([⟨serialize m, .tooLarge L⟩], none) ∧
+    delivered [⟨serialize m, .tooLarge L⟩] = [] := by
+  refine ⟨?_, by simp [delivered]⟩
+  rw [autoFrag_spec]
+  rw [if_neg (by intro ⟨h1, h2⟩; rw [hlog h1] at h2; exact absurd h2 (by decide)), if_neg (by omega)]
+  have hnone : fragUDP { m with packetID := pktIDOfDraw draw } L = .ok [] :=
+    (frag_none_iff _ L).mpr ⟨hfit, h⟩
+  simp only [hr, hnone, bind_ok, sendFrags]
+
+/-- ROUND TRIP, whole: the transport accepts the message as it is -/
+theorem autofrag_roundtrip_whole (logger : Bool) (bufLen : Nat) (m : UDPMessage) (hm : SenderShaped m) (draw : Nat)
+    (env : Nat → Env1) (hbuf : size m ≤ bufLen) (hlog : logger = true → (env 0).logOk = true)
+    (hr : (env 0).resp = .ok) :
+    autoFrag logger bufLen m draw env = .ok ([⟨serialize m, .ok⟩], none) ∧
+    recvAll (delivered [⟨serialize m, .ok⟩]) = [m] ∧ feed {} m = .ok ({}, some m) := by
+  obtain ⟨_, _, hc, ha1, ha2, hd⟩ := hm
+  refine ⟨?_, ?_, ?_⟩
+  · rw [autoFrag_spec]
+    rw [if_neg (by intro ⟨h1, h2⟩; rw [hlog h1] at h2; exact absurd h2 (by decide)), if_neg (by omega)]
+    simp only [hr]
+  · simp only [delivered, List.filter_cons, decide_true, ↓reduceIte, List.filter_nil, List.map_cons, List.map_nil,
+      recvAll, List.filterMap_cons, serialize_parse m ha1 ha2 hd, List.filterMap_nil]
+  · exact defrag_passthrough {} m (by rw [hc]; decide)
+
+/-- ROUND TRIP, fragmented.  The transport refuses the whole message with limit L and accepts
+    every fragment.  Then every fragment leaves, in order; and the receiver — ParseUDPMessage on
+    each datagram, Feed into a fresh Defragger — handed those datagrams in ANY order with ANY
+    duplicates (each at least once) emits exactly one message: the original session, address and
+    payload (with the drawn packet id, which the receiver does not hand on). -/
+theorem autofrag_roundtrip (logger : Bool) (bufLen : Nat) (m : UDPMessage) (hm : SenderShaped m) (draw : Nat)
+    (env : Nat → Env1) (L : Int) (hbuf : size m ≤ bufLen)
+    (hr : (env 0).resp = .tooLarge L)
+    (hlog : ∀ n, logger = true → (env n).logOk = true) (hok : ∀ n, 1 ≤ n → (env n).resp = .ok)
+    (fs : List UDPMessage) (hfs : fragUDP { m with packetID := pktIDOfDraw draw } L = .ok fs) (h2 : 2 ≤ fs.length) :
+    ∃ hs, autoFrag logger bufLen m draw env = .ok (hs, none) ∧ delivered hs = fs.map serialize ∧
+      ∀ σ : List Bytes, (∀ b ∈ σ, b ∈ delivered hs) → (∀ b ∈ delivered hs, b ∈ σ) →
+        ∃ d' outs, feedAll {} (recvAll σ) = .ok (d', outs) ∧
+          emitted outs = [{ m with packetID := pktIDOfDraw draw }] := by
+  obtain ⟨_, hfid, hc, ha1, ha2, hd⟩ := hm
+  have hsz : size ({ m with packetID := pktIDOfDraw draw } : UDPMessage) = size m := rfl
+  have hfit : ∀ f ∈ fs, size f ≤ bufLen := fun f hf => by
+    have := frag_size_le _ L fs hfs f hf; rw [hsz] at this; omega
+  have hall := sendFrags_all_ok logger bufLen env fs hfit 1 (fun n hn => ⟨hok n hn, hlog n⟩)
+  have hdel : delivered (⟨serialize m, .tooLarge L⟩ :: fs.map (fun f => (⟨serialize f, .ok⟩ : Handed))) = fs.map serialize := by
+    simp only [delivered, List.filter_cons, reduceCtorEq, decide_false, Bool.false_eq_true, ↓reduceIte]
+    rw [List.filter_eq_self.mpr (by intro h hh; obtain ⟨f, _, rfl⟩ := List.mem_map.mp hh; simp)]
+    simp [List.map_map]
+  refine ⟨⟨serialize m, .tooLarge L⟩ :: fs.map (fun f => ⟨serialize f, .ok⟩), ?_, hdel, ?_⟩
+  · rw [autoFrag_spec]
+    rw [if_neg (by intro ⟨h1, h2'⟩; rw [hlog 0 h1] at h2'; exact absurd h2' (by decide)), if_neg (by omega)]
+    simp only [hr, hfs, bind_ok, hall]
+  · intro σ hsub hsup
+    rw [hdel] at hsub hsup
+    obtain ⟨hS, _, hne⟩ := frag_reassembles _ L fs hfs h2
+    have hF : ∀ f ∈ fs, 1 ≤ f.addr.length ∧ f.addr.length ≤ 2048 ∧ 1 ≤ f.data.length := fun f hf => by
+      have := hS.addr f hf
+      simp only at this
+      rw [this]; exact ⟨ha1, ha2, hne f hf⟩
+    obtain ⟨r1, r2⟩ := recvAll_serialized fs hF σ (fun b hb => by
+      obtain ⟨f, hf, e⟩ := List.mem_map.mp (hsub b hb); exact ⟨f, hf, e.symm⟩)
+    exact frag_then_defrag { m with packetID := pktIDOfDraw draw } ⟨hfid, hc⟩ L fs hfs h2 (recvAll σ) r1
+      (fun f hf => r2 f hf (hsup _ (List.mem_map_of_mem hf)))
+
+/-- A MIDDLE FRAGMENT FAILS.  The transport refuses the whole message with limit L, the splitter
+    produces the fragment set `fs`, and the send path returns an error (a SendDatagram failure or a
+    logger refusal on some fragment).  Then exactly a proper prefix `fs[0..j)`, j < n, has left, no
+    later fragment is sent after the failed one, and the receiver — whatever order, duplicates
+    or losses it sees those datagrams in — never emits anything: all-or-nothing holds at the far
+    side because the set can never become complete. -/
+theorem autofrag_partial_failure (logger : Bool) (bufLen : Nat) (m : UDPMessage) (hm : SenderShaped m) (draw : Nat)
+    (env : Nat → Env1) (L : Int) (hr : (env 0).resp = .tooLarge L)
+    (fs : List UDPMessage) (hfs : fragUDP { m with packetID := pktIDOfDraw draw } L = .ok fs) (h2 : 2 ≤ fs.length)
+    (hs : List Handed) (e : SendErr) (h : autoFrag logger bufLen m draw env = .ok (hs, some e)) :
+    hs = [] ∨ ∃ j k, j < fs.length ∧ j ≤ k ∧ k ≤ j + 1 ∧
+      hs.map (·.bytes) = serialize m :: (fs.take k).map serialize ∧
+      delivered hs = (fs.take j).map serialize ∧
+      ∀ σ : List Bytes, (∀ b ∈ σ, b ∈ delivered hs) →
+        ∃ d' outs, feedAll {} (recvAll σ) = .ok (d', outs) ∧ emitted outs = [] := by
+  obtain ⟨_, hfid, hc, ha1, ha2, hd⟩ := hm
+  rw [autoFrag_spec] at h
+  split at h
+  · simp only [ok.injEq, Prod.mk.injEq] at h; exact Or.inl h.1.symm
+  · split at h
+    · simp only [ok.injEq, Prod.mk.injEq] at h; exact Or.inl h.1.symm
+    · rename_i hlog hbuf
+      right
+      simp only [hr, hfs, bind_ok, ok.injEq, Prod.mk.injEq] at h
+      obtain ⟨h1, herr⟩ := h
+      have hsz : size ({ m with packetID := pktIDOfDraw draw } : UDPMessage) = size m := rfl
+      have hfit : ∀ f ∈ fs, size f ≤ bufLen := fun f hf => by
+        have := frag_size_le _ L fs hfs f hf; rw [hsz] at this; omega
+      obtain ⟨j, k, hjk, hkj, hk, s1, s2, s3⟩ := sendFrags_spec logger bufLen env fs hfit 1
+      have hjn : j < fs.length := by
+        have : j ≠ fs.length := fun e' => by rw [s3.mpr e'] at herr; simp at herr
+        omega
+      obtain ⟨hS, _, hne⟩ := frag_reassembles _ L fs hfs h2
+      have hdel : delivered hs = (fs.take j).map serialize := by
+        rw [← h1]
+        have : delivered (⟨serialize m, .tooLarge L⟩ :: (sendFrags logger bufLen env 1 fs).1)
+            = delivered (sendFrags logger bufLen env 1 fs).1 := by simp [delivered]
+        rw [this, s2]
+      -- handed = delivered prefix plus at most the failing datagram
+      refine ⟨j, k, hjn, hjk, hkj, by rw [← h1]; simp only [List.map_cons, s1], hdel, ?_⟩
+      intro σ hsub
+      rw [hdel] at hsub
+      have hF : ∀ f ∈ fs.take j, 1 ≤ f.addr.length ∧ f.addr.length ≤ 2048 ∧ 1 ≤ f.data.length := fun f hf => by
+        have hf' := List.mem_of_mem_take hf
+        have := hS.addr f hf'
+        simp only at this
+        rw [this]; exact ⟨ha1, ha2, hne f hf'⟩
+      obtain ⟨r1, _⟩ := recvAll_serialized (fs.take j) hF σ (fun b hb => by
+        obtain ⟨f, hf, e'⟩ := List.mem_map.mp (hsub b hb); exact ⟨f, hf, e'.symm⟩)
+      -- fragment j never left, so the set is never complete
+      have hmiss : fs[j] ∉ fs.take j := by
+        intro hmem
+        obtain ⟨i, hi, e'⟩ := List.getElem_of_mem hmem
+        simp only [List.length_take] at hi
+        rw [List.getElem_take] at e'
+        have a := hS.fid i (by omega)
+        have b := hS.fid j hjn
+        rw [e'] at a; omega
+      have hnc : ¬ Complete fs (recvAll σ) := fun hcomp => hmiss (r1 _ (hcomp fs[j] (List.getElem_mem hjn)))
+      cases hrecv : recvAll σ with
+      | nil => exact ⟨{}, [], rfl, rfl⟩
+      | cons y b =>
+        rw [hrecv] at r1 hnc
+        obtain ⟨d', outs, f1, _, f3⟩ := defrag_any_order _ fs hS {} ⟨[], [], rfl⟩ (fresh_not_holding _ fs hS) [] y b
+          (fun x hx => List.mem_of_mem_take (r1 x hx))
+        simp only [List.nil_append] at f1 f3
+        exact ⟨d', outs, f1, by rw [f3, if_neg hnc]⟩
+
+
+/-- a send on a concrete message: 5 payload bytes, address "ab", the transport refuses the whole
+    datagram with limit 13 and accepts the rest; draw 8 → packet id 9; four datagrams are handed
+    over (16, 13, 13, 12 bytes), three leave -/
+example :
+    (autoFrag true 4096 ⟨1, 0, 0, 1, [byte 97, byte 98], [byte 1, byte 2, byte 3, byte 4, byte 5]⟩ 8
+      (fun i => if i = 0 then ⟨true, .tooLarge 13⟩ else {})).bind
+        (fun r => .ok (r.1.map (fun h => (h.bytes.length, h.resp)), r.2, (delivered r.1).length)) =
+    .ok ([(16, .tooLarge 13), (13, .ok), (13, .ok), (12, .ok)], none, 3) := by decide
+/-- the same send when the second fragment's SendDatagram fails: the third is never handed over,
+    one fragment has left, the error is returned -/
+example :
+    (autoFrag false 4096 ⟨1, 0, 0, 1, [byte 97, byte 98], [byte 1, byte 2, byte 3, byte 4, byte 5]⟩ 8
+      (fun i => if i = 0 then ⟨true, .tooLarge 13⟩ else if i = 2 then ⟨true, .fail⟩ else {})).bind
+        (fun r => .ok (r.1.map (fun h => (h.bytes.length, h.resp)), r.2, (delivered r.1).length)) =
+    .ok ([(16, .tooLarge 13), (13, .ok), (13, .fail)], some .other, 1) := by decide
+/-- the hypotheses of the round-trip theorems are satisfiable -/
+example : SenderShaped ⟨1, 0, 0, 1, [byte 97, byte 98], [byte 1, byte 2, byte 3, byte 4, byte 5]⟩ := by
+  unfold SenderShaped; decide
 
 /-! ### defect D1: the pinned tree (fragment count narrowed to uint8 before the slice is made) -/
 
